@@ -79,9 +79,14 @@ def facts_for_repo(repo=REPO, want_harness=False, quiet=False):
         # prune old fact dirs (keep the cache small)
         fdir = os.path.join(CACHE, 'facts')
         if os.path.isdir(fdir):
-            olds = sorted((os.path.join(fdir, d) for d in os.listdir(fdir)), key=os.path.getmtime)
-            for d in olds[:-24]:
-                shutil.rmtree(d, ignore_errors=True)
+            try:
+                now = time.time()
+                olds = sorted((os.path.join(fdir, d) for d in os.listdir(fdir) if not d.endswith('.tmp')), key=os.path.getmtime)
+                for d in olds[:-24]:
+                    if now - os.path.getmtime(d) > 900:      # never touch anything a concurrent run may still be using
+                        shutil.rmtree(d, ignore_errors=True)
+            except OSError:
+                pass
         tmp_out = out_dir + '.tmp'
         shutil.rmtree(tmp_out, ignore_errors=True)
         os.makedirs(tmp_out)
